@@ -438,7 +438,15 @@ package dpt
 //@   props C07
 //@   exact
 
+//@ func lemmaC07clamp_DPT_9001(x DPT_9001)
+//@   props C07
+//@   exact
+
 //@ func lemmaC07_DPT_9002(x DPT_9002)
+//@   props C07
+//@   exact
+
+//@ func lemmaC07clamp_DPT_9002(x DPT_9002)
 //@   props C07
 //@   exact
 
@@ -446,7 +454,15 @@ package dpt
 //@   props C07
 //@   exact
 
+//@ func lemmaC07clamp_DPT_9003(x DPT_9003)
+//@   props C07
+//@   exact
+
 //@ func lemmaC07_DPT_9004(x DPT_9004)
+//@   props C07
+//@   exact
+
+//@ func lemmaC07clamp_DPT_9004(x DPT_9004)
 //@   props C07
 //@   exact
 
@@ -454,7 +470,15 @@ package dpt
 //@   props C07
 //@   exact
 
+//@ func lemmaC07clamp_DPT_9005(x DPT_9005)
+//@   props C07
+//@   exact
+
 //@ func lemmaC07_DPT_9006(x DPT_9006)
+//@   props C07
+//@   exact
+
+//@ func lemmaC07clamp_DPT_9006(x DPT_9006)
 //@   props C07
 //@   exact
 
@@ -462,7 +486,15 @@ package dpt
 //@   props C07
 //@   exact
 
+//@ func lemmaC07clamp_DPT_9007(x DPT_9007)
+//@   props C07
+//@   exact
+
 //@ func lemmaC07_DPT_9008(x DPT_9008)
+//@   props C07
+//@   exact
+
+//@ func lemmaC07clamp_DPT_9008(x DPT_9008)
 //@   props C07
 //@   exact
 
@@ -470,7 +502,15 @@ package dpt
 //@   props C07
 //@   exact
 
+//@ func lemmaC07clamp_DPT_9010(x DPT_9010)
+//@   props C07
+//@   exact
+
 //@ func lemmaC07_DPT_9011(x DPT_9011)
+//@   props C07
+//@   exact
+
+//@ func lemmaC07clamp_DPT_9011(x DPT_9011)
 //@   props C07
 //@   exact
 
@@ -478,7 +518,15 @@ package dpt
 //@   props C07
 //@   exact
 
+//@ func lemmaC07clamp_DPT_9020(x DPT_9020)
+//@   props C07
+//@   exact
+
 //@ func lemmaC07_DPT_9021(x DPT_9021)
+//@   props C07
+//@   exact
+
+//@ func lemmaC07clamp_DPT_9021(x DPT_9021)
 //@   props C07
 //@   exact
 
@@ -486,7 +534,15 @@ package dpt
 //@   props C07
 //@   exact
 
+//@ func lemmaC07clamp_DPT_9022(x DPT_9022)
+//@   props C07
+//@   exact
+
 //@ func lemmaC07_DPT_9023(x DPT_9023)
+//@   props C07
+//@   exact
+
+//@ func lemmaC07clamp_DPT_9023(x DPT_9023)
 //@   props C07
 //@   exact
 
@@ -494,7 +550,15 @@ package dpt
 //@   props C07
 //@   exact
 
+//@ func lemmaC07clamp_DPT_9024(x DPT_9024)
+//@   props C07
+//@   exact
+
 //@ func lemmaC07_DPT_9025(x DPT_9025)
+//@   props C07
+//@   exact
+
+//@ func lemmaC07clamp_DPT_9025(x DPT_9025)
 //@   props C07
 //@   exact
 
@@ -502,7 +566,15 @@ package dpt
 //@   props C07
 //@   exact
 
+//@ func lemmaC07clamp_DPT_9026(x DPT_9026)
+//@   props C07
+//@   exact
+
 //@ func lemmaC07_DPT_9027(x DPT_9027)
+//@   props C07
+//@   exact
+
+//@ func lemmaC07clamp_DPT_9027(x DPT_9027)
 //@   props C07
 //@   exact
 
@@ -510,7 +582,15 @@ package dpt
 //@   props C07
 //@   exact
 
+//@ func lemmaC07clamp_DPT_9028(x DPT_9028)
+//@   props C07
+//@   exact
+
 //@ func lemmaC07_DPT_9029(x DPT_9029)
+//@   props C07
+//@   exact
+
+//@ func lemmaC07clamp_DPT_9029(x DPT_9029)
 //@   props C07
 //@   exact
 
